@@ -510,8 +510,7 @@ def _stg_conformance(sc, v, runs):
     import online
     # (runs in which the AMF sends a message of its own accord in front of the fault are outside the AMF family of Stg.tla, whose AMF only
     # answers: they are judged by StgOnline's final verdict alone)
-    clean = [r for r in runs if r["verdict"] is not None and r["tlc"].ok and not r["tlc"].rejects and not r["scn"]["fault"].get("ins")
-             and r["scn"]["fault"]["kind"] != "closeafter"]
+    clean = [r for r in runs if r["verdict"] is not None and r["tlc"].ok and not r["tlc"].rejects and not r["scn"]["fault"].get("ins")]
     n = 0
     for r, t in online.validate_stg(sc, clean):
         if not t.ok:
@@ -526,8 +525,8 @@ def _stg_conformance(sc, v, runs):
 
 
 def _mc_stg(sc, v, tier="quick"):
-    """design level: exhaustive model checking of the abstract system specification (quick: counts <= 2, 137 k states;
-    thorough: counts <= 3 with both fault kinds at every point, 1.29 M states)"""
+    """design level: exhaustive model checking of the abstract system specification (quick: counts <= 2, 200 k states;
+    thorough: counts <= 3; the three fault kinds close / closeafter / garbage at every point)"""
     for cfgname in (("MCStg",) if tier == "quick" else ("MCStg", "MCStg3")):
         p = os.path.join(vlib.SPEC, cfgname + ".cfg")
         if not os.path.exists(p):
